@@ -1,0 +1,27 @@
+//go:build verif
+
+package core
+
+// Contracts for the creation of symbolic links by a transition (property
+// C16: "In portable symbolic link mode, every link accepted for
+// synchronization, whether found by a scan or created by a transition,
+// resolves to a location inside the synchronization root. Empty, absolute,
+// over-long, colon-containing or backslash-containing targets are
+// rejected"). Comment-only file, read by govc.
+
+// portableTarget(path, t): what the statement demands of the target t of a
+// link at root-relative path `path` (the conjunction of the postconditions
+// that normalizeSymbolicLinkAndEnsurePortable is verified against).
+//@ pred portableTarget(path, t) = len(t) > 0 && len(t) <= 247 && t[0] != '/' && (forall i in 0..len(t) :: t[i] != ':' && t[i] != '\\') && (forall k in 0..ncomp(t)+1 :: pdepth(path, t, k) >= 0)
+
+// The link is created through the parent directory handle under exactly the
+// planned name and with exactly the planned target [planned]; never when
+// links are ignored [mode]; and in portable mode only with a target that the
+// normaliser accepted for this very path and returned unchanged [portable].
+// (inline: callers keep evaluating the body, as before this contract.)
+//@ func (*transitioner).createSymbolicLink
+//@   inline
+//@   at call (*Directory).CreateSymbolicLink assert[planned] arg0 == parent && arg1 == name && arg2 == target.Target
+//@   at call (*Directory).CreateSymbolicLink assert[mode] t.symbolicLinkMode != SymbolicLinkMode_SymbolicLinkModeIgnore
+//@   at call (*Directory).CreateSymbolicLink assert[portable] t.symbolicLinkMode == SymbolicLinkMode_SymbolicLinkModePortable ==> portableTarget(path, arg2)
+//@   at call normalizeSymbolicLinkAndEnsurePortable assert[checked] arg0 == path && arg1 == target.Target
